@@ -42,17 +42,28 @@ def c01 (op : String) (args : List Sexp) : Verdict :=
         | .atom "ok" =>
           if c.recs.length != c.vals.length then .oracle s!"{c.vals.length} records written, {c.recs.length} delivered" else
           let bad := (c.vals.zip c.recs).zipIdx.findSome? fun ((g, r), i) =>
-            match toAvro env (specNull env) bigFuel codec g with
-            | none => some s!"record {i}: no datum for the generated value (harness)"
-            | some v =>
-              match ofAvro env bigFuel codec v (zeroVal c.ty), parseGoVal r with
-              | .ok ge, some ir =>
-                if renderGoVal ge == renderGoVal ir then none
-                else some s!"record {i} read back as {renderGoVal ir}, written value normalises to {renderGoVal ge}"
-              | .ok _, none => some s!"record {i}: unparsable implementation value"
-              | _, _ => some s!"record {i}: the written datum does not fit its own type in the model"
+            -- oracle: the documented normalisations applied to the value written (independent of the codec model)
+            let want := normSpec 64 c.ty false g
+            match parseGoVal r with
+            | none => some s!"record {i}: unparsable implementation value"
+            | some ir =>
+              if renderGoVal (normSpec 64 c.ty false ir) != renderGoVal want then
+                let got := renderGoVal (normSpec 64 c.ty false ir)
+                let tag :=
+                  if got == renderGoVal (normSpecD 1 64 c.ty false g) then "[D27 ptr-to-invalid-null only] "
+                  else if got == renderGoVal (normSpecD 2 64 c.ty false g) then "[D30 ptr-ptr-inner-nil only] "
+                  else if got == renderGoVal (normSpecD 3 64 c.ty false g) then "[D27+D30 only] " else ""
+                some s!"{tag}record {i} read back as {renderGoVal (normSpec 64 c.ty false ir)} (normalised), written value normalises to {renderGoVal want}"
+              else
+                -- correspondence: the model's round trip gives what the implementation gave
+                match toAvro env (omits env) bigFuel codec g with
+                | none => none
+                | some v =>
+                  match ofAvro env bigFuel codec v (zeroVal c.ty) with
+                  | .ok ge => if renderGoVal ge == renderGoVal ir then none else some s!"DIFF record {i}: model round trip gives {renderGoVal ge}, implementation {renderGoVal ir}"
+                  | _ => some s!"DIFF record {i}: model cannot read back its own datum"
           match bad with
-          | some e => .oracle e
+          | some e => if e.startsWith "DIFF" then .diff e else .oracle e
           | none => .ok s!"e2e/{c.codec}/recs{min c.vals.length 4}"
         | other => .oracle s!"reading back a file the library wrote failed: {other}"
     | .err => .diff "model: schema generation error"
